@@ -50,6 +50,10 @@ def obligations(cls):
         in_req_group = any(a in g for g in req)
         if t.required:
             out.append({"kind": "required-omitted", "attr": a})
+            if k == "elem":
+                # present as a keyword but without a value: no value is no value
+                out.append({"kind": "required-given-empty", "attr": a, "value": ""})
+                out.append({"kind": "required-given-empty", "attr": a, "value": None})
         if k == "elem":
             tt = t
             if isinstance(tt, Types.OneOf):
@@ -237,6 +241,9 @@ def build_violation(ob, base=None):
     elif kind in ("integer-over-limit", "integer-over-limit-negative", "integer-at-limit"):
         desc = _with(cls, [ob["attr"]], base, consistent=kind == "integer-at-limit")
         desc["kw"][ob["attr"]] = ["int", ob["value"]]
+    elif kind == "required-given-empty":
+        desc = _with(cls, [ob["attr"]], base)
+        desc["kw"][ob["attr"]] = ["raw", ob["value"]]
     elif kind == "integer-over-limit-as-number":
         desc = _with(cls, [ob["attr"]], base)
         desc["kw"][ob["attr"]] = ob["value"]
@@ -409,7 +416,7 @@ def check_case(case):
     if desc is not None:
         if ob["kind"] not in ():
             routes.append("constructor")
-        if ob["kind"] not in ("undeclared-keyword", "foreign-member-type", "integer-over-limit-as-number"):
+        if ob["kind"] not in ("undeclared-keyword", "foreign-member-type", "integer-over-limit-as-number", "required-given-empty"):
             routes.append("etree")
     if tree is not None:
         routes.append("etree-given")
